@@ -767,7 +767,12 @@ def roundtrip(desc, dialect, opts, mode):
             return "bad", _bad("redump", f"redump-raises-{type(e).__name__}", f"second dump raised {type(e).__name__}: {e}",
                                text, type(e).__name__)
         if not same_text_up_to_set_order(text, t2):
-            return "bad", _bad("redump", "redump-differs", f"first dump {text!r} != second dump {t2!r}", text)
+            sym = None
+            if has_brace_outside_quotes(text) and norm_sets(" ".join(text.split())) == norm_sets(" ".join(t2.split())):
+                # same tokens once ALL white space (also inside quotes) is collapsed: the other element order moved a
+                # line break of the wrapping into / out of a quoted string
+                sym = "set-reordering-moves-line-break-inside-quotes"
+            return "bad", _bad("redump", "redump-differs", f"first dump {text!r} != second dump {t2!r}", text, symptom=sym)
     return "ok", None
 
 
@@ -1196,7 +1201,7 @@ def minimise(desc, dialect, opts, mode, info):
     if info2.get("symptom"):
         sy = info2["symptom"]
         k0 = ("qty" if sy.endswith("units") else "assignment" if sy.startswith("parameter-name") else
-              "module" if sy.startswith("dumps-removed") else "str")
+              "module" if sy.startswith("dumps-removed") else "set" if sy.startswith("set-") else "str")
         key = f"{pid}:{dialect}:{k0}:{sy}:{info2['slug']}"
     else:
         key = f"{pid}:{dialect}:{kind}:{cls}:{info2['slug']}" + (":opt-" + "+".join(delta) if delta else "")
